@@ -94,7 +94,14 @@ def main():
 
     if "--replay" in argv:
         path = argv[argv.index("--replay") + 1]
-        v, err = replay_file(mod, prop, path, {})
+        try:
+            v, err = replay_file(mod, prop, path, {})
+        except eng.Inconclusive as e:
+            print(f"INCONCLUSIVE replay {path}: {e}")
+            return 2
+        except Exception as e:  # noqa: BLE001 - a harness problem is never a violation
+            print(f"INCONCLUSIVE replay {path}: harness error {type(e).__name__}: {e}")
+            return 2
         if err:
             print(err)
             return 2
